@@ -193,6 +193,14 @@ class World:
         if not isinstance(machine_mod.logging, ErrorLog):
             machine_mod.logging = ErrorLog(machine_mod.logging)
         self.errlog = machine_mod.logging
+        # the injection registry is global: remember this world's bindings
+        self._providers = dict(injection._providers)
+
+    def activate(self):
+        from bardolph.lib import injection
+        if injection._providers != self._providers:
+            injection._providers.clear()
+            injection._providers.update(self._providers)
 
     @staticmethod
     def specs():
@@ -251,6 +259,7 @@ def run_script(world, src):
     .compiled, .errors (swallowed exceptions), .calls, .pauses, .printed, .reg."""
     from bardolph.parser.parse import Parser
     from bardolph.vm.machine import Machine
+    world.activate()
     world.clear()
     r = Run()
     parser = Parser()
